@@ -21,16 +21,29 @@ SHARED = "sharepoint2text/parsing/extractors/open_office/_shared.py"
 EXECUTOR = X.C02Executor
 
 
+def _sl(st, v):
+    """(n, cat, sqj) of a str list in either representation."""
+    o = st.obj(v.ref)
+    if o.kind == "slist":
+        return o.data["n"], o.data["cat"], o.data["sqj"]
+    if o.kind == "list" and o.data is not None and all(isinstance(x, VStr) for x in o.data):
+        items = [x.t for x in o.data]
+        return z3.IntVal(len(items)), cc(*items) if items else lit(""), X.sq_join_blank(items)
+    raise X.Unsupported(f"not a list of str: {o.kind}")
+
+
 def cat_of(st, v):
-    return st.obj(v.ref).data["cat"]
+    return _sl(st, v)[1]
 
 
-def sqj_of(st, v):
-    return st.obj(v.ref).data["sqj"]
+def lead_of(st, v):
+    """Leading-blank normal form of the blank-separated sq-join: every item prefixed by one blank."""
+    n, _c, sqj = _sl(st, v)
+    return z3.If(n == 0, lit(""), X.SQ_cat(lit(" "), sqj))
 
 
 def cc(*ts):
-    return T._concat([y for t in ts for y in T._flat(t)])
+    return T._concat([y for t in ts for y in T._flat(t if not isinstance(t, str) else lit(t))])
 
 
 # =====================================================================================
@@ -116,10 +129,251 @@ def odf_contracts():
     return [append, etext]
 
 
+
+# =====================================================================================
+# (d) DOCX body walk  --  ms_modern/docx_extractor.py
+#
+# Statement: "each visible leaf once in document order; paragraph / cell / break / tab
+# boundaries are whitespace; deletions and comments excluded; content controls transparent".
+# Over the abstract tree (tags are the WordprocessingML names of ECMA-376, written here, not read
+# from the code):
+#   dx(e) =  choice-children                 mc:AlternateContent  (exactly one of Choice / Fallback is rendered: Choice)
+#            nothing                         mc:Fallback, w:moveFrom (source of a tracked move = tracked deletion)
+#            run items                       w:r :  w:t -> its text;  w:tab | w:br | w:cr -> whitespace;  any other child c -> dx(c)
+#            "$latex$" / "$$latex$$"         m:oMath / m:oMathPara (documented decoration), when formulas are requested
+#            blank dx-children blank         w:p reached from inside another paragraph (text box): a paragraph boundary
+#            dx-children                     everything else (w:ins, w:hyperlink, w:sdt, w:sdtContent, w:smartTag, w:drawing, w:pict ...)
+# w:delText / w:instrText / comment and note references are not w:t, so they contribute nothing.
+# Two images of dx are specified: dxn = nw(dx) ("nothing lost, duplicated, reordered, leaked") and
+# dxs = sq(dx) (boundaries are whitespace).
+# =====================================================================================
+DOCX = "sharepoint2text/parsing/extractors/ms_modern/docx_extractor.py"
+OMML_PY = "sharepoint2text/parsing/extractors/util/omml_to_latex.py"
+W_ = "{http://schemas.openxmlformats.org/wordprocessingml/2006/main}"
+M_ = "{http://schemas.openxmlformats.org/officeDocument/2006/math}"
+MC_ = "{http://schemas.openxmlformats.org/markup-compatibility/2006}"
+W_T, W_R, W_P, W_TAB, W_BR, W_CR = (lit(W_ + x) for x in ("t", "r", "p", "tab", "br", "cr"))
+W_TBL, W_TR, W_TC, W_SDT, W_SDTCONTENT, W_CUSTOMXML, W_MOVEFROM = (lit(W_ + x) for x in ("tbl", "tr", "tc", "sdt", "sdtContent", "customXml", "moveFrom"))
+M_OMATH, M_OMATHPARA, MC_CHOICE = lit(M_ + "oMath"), lit(M_ + "oMathPara"), lit(MC_ + "Choice")
+OMML = z3.Function("omml_to_latex", ELEM, S)                   # uninterpreted (C19's subject)
+
+FIND_NONE, FIND_IDX = ET.FIND_NONE, ET.FIND_IDX
+
+
+def is_ac(t):
+    return z3.SuffixOf(lit("}AlternateContent"), t)
+
+
+def is_fb(t):
+    return z3.SuffixOf(lit("}Fallback"), t)
+
+
+def is_brk(t):
+    return z3.Or(t == W_TAB, t == W_BR, t == W_CR)
+
+
+class Dx:
+    """One image (nw or sq) of the DOCX spec function."""
+
+    def __init__(self, name, h, ws, par_pad):
+        self.h, self.ws, self.pad = h, lit(ws), lit(par_pad)
+        self.F = z3.Function(f"dx_{name}", ELEM, B, S)
+        self.KIDS = z3.Function(f"dx_{name}_children", ELEM, I, B, S)
+        self.RUN = z3.Function(f"dx_{name}_run_items", ELEM, I, B, S)
+        define(self.F, self._f)
+        define(self.KIDS, self._kids)
+        define(self.RUN, self._run)
+
+    def all_kids(self, e, inc):
+        return self.KIDS(e, NCH(e), inc)
+
+    def formula(self, e, inc, d):
+        x = OMML(e)
+        return z3.If(z3.And(inc, z3.Not(T.blank(x))), cc(lit(d), self.h(x), lit(d)), lit(""))
+
+    def _f(self, e, inc):
+        t = TAG(e)
+        ch = CH(e, FIND_IDX(e, MC_CHOICE))
+        om = CH(e, FIND_IDX(e, M_OMATH))
+        body = z3.If(is_ac(t), z3.If(FIND_NONE(e, MC_CHOICE), lit(""), self.all_kids(ch, inc)),
+               z3.If(z3.Or(is_fb(t), t == W_MOVEFROM), lit(""),
+               z3.If(t == W_R, self.RUN(e, NCH(e), inc),
+               z3.If(t == M_OMATH, self.formula(e, inc, "$"),
+               z3.If(t == M_OMATHPARA, z3.If(FIND_NONE(e, M_OMATH), lit(""), self.formula(om, inc, "$$")),
+               z3.If(t == W_P, cc(self.pad, self.all_kids(e, inc), self.pad),
+                     self.all_kids(e, inc)))))))
+        return [self.F(e, inc) == body, NCH(e) >= 0]
+
+    def _kids(self, e, k, inc):
+        k1 = z3.simplify(k - 1)
+        return [self.KIDS(e, k, inc) == z3.If(k <= 0, lit(""), cc(self.KIDS(e, k1, inc), self.F(CH(e, k1), inc)))]
+
+    def run_item(self, c, inc):
+        return z3.If(TAG(c) == W_T, self.h(TEXT(c)), z3.If(is_brk(TAG(c)), self.ws, self.F(c, inc)))
+
+    def _run(self, e, k, inc):
+        k1 = z3.simplify(k - 1)
+        c = CH(e, k1)
+        return [self.RUN(e, k, inc) == z3.If(k <= 0, lit(""), cc(self.RUN(e, k1, inc), self.run_item(c, inc))),
+                z3.Implies(TEXT_NONE(c), TEXT(c) == lit(""))]
+
+
+DXN = Dx("nw", NW, "", "")
+DXS = Dx("sq", SQ, " ", " ")
+DX_IMAGES = (("nw", DXN, NW), ("sq", DXS, SQ))
+
+# case analysis used to give every suspected defect its own obligation id
+ELEM_CASES = [
+    ("alternate-content", lambda t: is_ac(t)),
+    ("fallback", lambda t: z3.And(z3.Not(is_ac(t)), is_fb(t))),
+    ("tracked-move-source", lambda t: z3.And(z3.Not(is_ac(t)), z3.Not(is_fb(t)), t == W_MOVEFROM)),
+    ("run", lambda t: z3.And(z3.Not(is_ac(t)), z3.Not(is_fb(t)), t == W_R)),
+    ("formula", lambda t: z3.And(z3.Not(is_ac(t)), z3.Not(is_fb(t)), z3.Or(t == M_OMATH, t == M_OMATHPARA))),
+    ("nested-paragraph", lambda t: z3.And(z3.Not(is_ac(t)), z3.Not(is_fb(t)), t == W_P)),
+    ("container", lambda t: z3.And(z3.Not(is_ac(t)), z3.Not(is_fb(t)), t != W_MOVEFROM, t != W_R, t != M_OMATH, t != M_OMATHPARA, t != W_P)),
+]
+RUN_CHILD_CASES = [
+    ("text", lambda t: t == W_T),
+    ("tab-break", lambda t: is_brk(t)),
+    ("alternate-content", lambda t: z3.And(t != W_T, z3.Not(is_brk(t)), is_ac(t))),
+    ("other-child", lambda t: z3.And(t != W_T, z3.Not(is_brk(t)), z3.Not(is_ac(t)))),
+]
+
+
+# ---- block level: the body is a sequence of blocks -------------------------------------------------------
+#   block(c) = paragraph text (if not blank) | table text | blocks of a content control (w:sdt/w:sdtContent,
+#              w:customXml: transparent) | nothing (w:sectPr, bookmarks, ...)
+# nw image: plain concatenation.  sq image in *leading-blank normal form*: every piece is preceded by one blank,
+# so that "separated by whitespace" composes through nesting; the final claim is modulo the outer blank.
+TBLN = z3.Function("docx_table_nw", ELEM, B, S)        # specified concretely in replay/c02_trees.py (BOUNDED check of _extract_table_text)
+TBLS = z3.Function("docx_table_sq", ELEM, B, S)
+BODYN = z3.Function("docx_blocks_nw", ELEM, I, B, S)
+BODYS = z3.Function("docx_blocks_sq", ELEM, I, B, S)
+
+
+def _blocks_def(F, par, tbl):
+    def d(e, k, inc):
+        k1 = z3.simplify(k - 1)
+        c = CH(e, k1)
+        sc = CH(c, FIND_IDX(c, W_SDTCONTENT))
+        item = z3.If(TAG(c) == W_P, par(c, inc),
+               z3.If(TAG(c) == W_TBL, tbl(c, inc),
+               z3.If(TAG(c) == W_SDT, z3.If(FIND_NONE(c, W_SDTCONTENT), lit(""), F(sc, NCH(sc), inc)),
+               z3.If(TAG(c) == W_CUSTOMXML, F(c, NCH(c), inc), lit("")))))
+        return [F(e, k, inc) == z3.If(k <= 0, lit(""), cc(F(e, k1, inc), item))]
+    return d
+
+
+define(BODYN, _blocks_def(BODYN, lambda c, inc: DXN.all_kids(c, inc), TBLN))
+define(BODYS, _blocks_def(BODYS, lambda c, inc: z3.If(DXN.all_kids(c, inc) == lit(""), lit(""), cc(" ", DXS.all_kids(c, inc))), TBLS))
+
+BODY_CHILD_CASES = [
+    ("paragraph", lambda t: t == W_P),
+    ("table", lambda t: t == W_TBL),
+    ("content-control", lambda t: z3.Or(t == W_SDT, t == W_CUSTOMXML)),
+    ("other", lambda t: z3.And(t != W_P, t != W_TBL, t != W_SDT, t != W_CUSTOMXML)),
+]
+
+
+def docx_contracts():
+    OLD = z3.String("parts.cat")
+
+    def kids_inv(var):
+        def inv(lc):
+            e, inc = lc[var].t, lc["include_formulas"].t
+            cur = cat_of(lc.st, lc["parts"])
+            return Conj([(nm, h(cur) == cc(h(OLD), D.KIDS(e, lc.i, inc))) for nm, D, h in DX_IMAGES])
+        return inv
+
+    def run_inv(lc):
+        e, inc = lc["elem"].t, lc["include_formulas"].t
+        cur = cat_of(lc.st, lc["parts"])
+        last = TAG(CH(e, z3.simplify(lc.i - 1)))
+        return Conj([(f"{nm}[{cn}]", z3.Implies(g(last), h(cur) == cc(h(OLD), D.RUN(e, lc.i, inc))))
+                     for nm, D, h in DX_IMAGES for cn, g in RUN_CHILD_CASES])
+
+    def post(nm, D, h, guard):
+        def f(c):
+            e, inc = c.args["elem"].t, c.args["include_formulas"].t
+            return z3.Implies(guard(TAG(e)),
+                              h(cat_of(c.st, c.args["parts"])) == cc(h(cat_of(c.entry, c.args["parts"])), D.F(e, inc)))
+        return f
+
+    process = FnContract(
+        target=f"{DOCX}::_process_text_element",
+        params=[("elem", p_elem()), ("parts", p_strlist()), ("include_formulas", p_bool())],
+        ensures=[(f"{nm}(parts)==old+dx_{nm}(elem)[{cn}]", post(nm, D, h, g)) for nm, D, h in DX_IMAGES for cn, g in ELEM_CASES],
+        modifies=("parts",),
+        loops={0: LoopSpec(inv=kids_inv("choice"), label="choice-children"),
+               1: LoopSpec(inv=run_inv, label="run-children"),
+               2: LoopSpec(inv=kids_inv("elem"), label="children")},
+    )
+    omml = FnContract(target=f"{OMML_PY}::omml_to_latex", params=[("elem", p_elem())], assumed=True,
+                      returns=lambda c: VStr(OMML(c.args["elem"].t)), note="uninterpreted: C19 decides what the LaTeX is")
+
+    def par_inv(lc):
+        e, inc = lc["paragraph"].t, lc["include_formulas"].t
+        cur = cat_of(lc.st, lc["parts"])
+        return Conj([(nm, h(cur) == D.KIDS(e, lc.i, inc)) for nm, D, h in DX_IMAGES])
+
+    para = FnContract(
+        target=f"{DOCX}::_extract_paragraph_content",
+        params=[("paragraph", p_elem()), ("include_formulas", p_bool())],
+        ensures=[(f"{nm}(result)==dx_{nm}_children(paragraph)",
+                  (lambda nm, D, h: lambda c: h(c.result.t) == D.all_kids(c.args["paragraph"].t, c.args["include_formulas"].t))(nm, D, h))
+                 for nm, D, h in DX_IMAGES],
+        result_maker=lambda ex, st, ctx: VStr(z3.String(fresh_name("paragraph_text"))),
+        loops={0: LoopSpec(inv=par_inv, label="children")},
+    )
+    # ---- body level --------------------------------------------------------------------------
+    def tbl_result(ex, st, ctx):
+        n = z3.Int(fresh_name("table_texts.len"))
+        cat, sqj = z3.String(fresh_name("table_texts.cat")), z3.String(fresh_name("table_texts.sqj"))
+        st.assume(z3.And(n >= 0, z3.Implies(n == 0, z3.And(cat == lit(""), sqj == lit("")))))
+        return X.mk_slist(ex, st, n, cat, sqj, fresh=True)
+
+    table = FnContract(
+        target=f"{DOCX}::_extract_table_text",
+        params=[("table", p_elem()), ("include_formulas", p_bool())],
+        assumed=True, result_maker=tbl_result,
+        ensures=[("nw", lambda c: NW(cat_of(c.st, c.result)) == TBLN(c.args["table"].t, c.args["include_formulas"].t)),
+                 ("sq", lambda c: lead_of(c.st, c.result) == TBLS(c.args["table"].t, c.args["include_formulas"].t))],
+        note="callee contract used by the body walk; the function itself is checked exhaustively over small trees (BOUNDED, replay/C02.py)",
+    )
+
+    def body_inv(lc):
+        e, inc = lc["body"].t, lc["include_formulas"].t
+        last = TAG(CH(e, z3.simplify(lc.i - 1)))
+        goals = [("nw", NW(cat_of(lc.st, lc["all_text"])) == BODYN(e, lc.i, inc)),
+                 ("sq", lead_of(lc.st, lc["all_text"]) == BODYS(e, lc.i, inc))]
+        return Conj([(f"{nm}[{cn}]", z3.Implies(g(last), t)) for nm, t in goals for cn, g in BODY_CHILD_CASES])
+
+    def body_post_nw(c):
+        if isinstance(c.args["body"], VNoneT):
+            return NW(c.result.t) == lit("")
+        return NW(c.result.t) == BODYN(c.args["body"].t, NCH(c.args["body"].t), c.args["include_formulas"].t)
+
+    def body_post_sq(c):
+        if isinstance(c.args["body"], VNoneT):
+            return SQ(c.result.t) == lit("")
+        bs = BODYS(c.args["body"].t, NCH(c.args["body"].t), c.args["include_formulas"].t)
+        return z3.Or(z3.And(bs == lit(""), SQ(c.result.t) == lit("")), cc(" ", SQ(c.result.t)) == bs)
+
+    body = FnContract(
+        target=f"{DOCX}::_extract_full_text_from_body",
+        params=[("body", p_opt(p_elem())), ("include_formulas", Maker(lambda ex, st, name: VBool(z3.Bool(name)), desc="bool", default=lambda ex, st: VBool(True)))],
+        ensures=[("nw(result)==nw-of-blocks-in-order", body_post_nw),
+                 ("sq(result)==blocks-separated-by-whitespace", body_post_sq)],
+        loops={0: LoopSpec(inv=body_inv, label="blocks")},
+    )
+    return [process, omml, para, table, body]
+
+
 def contracts(reg):
     X.install(reg)
     out = []
     out += odf_contracts()
+    out += docx_contracts()
     return out
 
 
